@@ -286,6 +286,10 @@ pub enum Op {
     ArrRetainEven(Path),
     ArrRetainNone(Path),
     ArrClear(Path),
+    /// a scalar entry of the array's parent table is removed and the SAME value object (with whatever decor it had
+    /// on its `key = value # comment` line) is pushed / inserted at the front: both calls apply default formatting
+    ArrPushMoved(Path, String),
+    ArrInsertMoved(Path, String),
     AotPush(Path),
     /// `ArrayOfTables::extend` with three new tables
     AotExtend3(Path),
@@ -352,6 +356,17 @@ fn all_values(n: &N) -> bool {
     }
 }
 
+/// can be turned into a value as a whole: values, and tables / arrays of tables made of such
+fn convertible(n: &N) -> bool {
+    match &n.k {
+        K::Leaf(_) => true,
+        K::Arr(a) => a.iter().all(all_values),
+        K::Inl(e) => e.iter().all(|(_, v)| all_values(v)),
+        K::Tab(e, _) => e.iter().all(|(_, v)| convertible(v)),
+        K::Aot(a) => a.iter().all(convertible),
+    }
+}
+
 fn enumerate_ops(root: &N) -> Vec<Op> {
     let mut ops = Vec::new();
     fn rec(root: &N, n: &N, p: &mut Path, ops: &mut Vec<Op>) {
@@ -388,6 +403,21 @@ fn enumerate_ops(root: &N) -> Vec<Op> {
                         _ => v.is_value(),
                     }
                 }
+                // move a scalar sibling into an array of scalars of the same table
+                for (ka, arr) in e {
+                    if let K::Arr(items) = &arr.k {
+                        if items.iter().all(|x| matches!(x.k, K::Leaf(_))) {
+                            for (ks, src) in e {
+                                if matches!(src.k, K::Leaf(_)) {
+                                    let mut ap = p.clone();
+                                    ap.push(Seg::Key(ka.clone()));
+                                    ops.push(Op::ArrPushMoved(ap.clone(), ks.clone()));
+                                    ops.push(Op::ArrInsertMoved(ap, ks.clone()));
+                                }
+                            }
+                        }
+                    }
+                }
                 if e.iter().all(|(_, v)| sortable(v)) && e.len() >= 1 {
                     ops.push(Op::SortValues(p.clone()));
                 }
@@ -398,7 +428,8 @@ fn enumerate_ops(root: &N) -> Vec<Op> {
                 }
                 if !p.is_empty() {
                     match &n.k {
-                        K::Tab(_, 0) if e.iter().all(|(_, v)| all_values(v)) && !matches!(p.last(), Some(Seg::Idx(_))) => {
+                        // (sub-tables and arrays of tables below it are converted along: `[t]` / `[t.u]` / `[[t.v]]` -> `t = { u = {..}, v = [{..}] }`)
+                        K::Tab(_, 0) if e.iter().all(|(_, v)| convertible(v)) && !matches!(p.last(), Some(Seg::Idx(_))) => {
                             ops.push(Op::IntoInline(p.clone()));
                             ops.push(Op::MakeValue(p.clone()));
                         }
@@ -449,7 +480,7 @@ fn enumerate_ops(root: &N) -> Vec<Op> {
                     ops.push(Op::AotRetainEven(p.clone()));
                     ops.push(Op::AotClear(p.clone()));
                 }
-                if a.iter().all(all_values_tab) {
+                if a.iter().all(convertible) {
                     ops.push(Op::MakeValue(p.clone()));
                 }
                 for (i, child) in a.iter().enumerate() {
@@ -610,6 +641,23 @@ fn apply_model(root: &mut N, op: &Op) -> BTreeSet<String> {
                 i += 1;
             }
         }
+        Op::ArrPushMoved(p, k) | Op::ArrInsertMoved(p, k) => {
+            let parent = get_mut(root, &p[..p.len() - 1]);
+            let (K::Inl(e) | K::Tab(e, _)) = &mut parent.k else { panic!() };
+            let i = e.iter().position(|(kk, _)| kk == k).expect("moved key");
+            let (_, src) = e.remove(i);
+            sub(&src, &mut touched);
+            let K::Leaf(content) = src.k else { panic!() };
+            let t = get_mut(root, p);
+            if let Some(m) = &t.mark {
+                touched.insert(m.clone());
+            }
+            let K::Arr(a) = &mut t.k else { panic!() };
+            match op {
+                Op::ArrInsertMoved(..) => a.insert(0, N::leaf(&content)),
+                _ => a.push(N::leaf(&content)),
+            }
+        }
         Op::AotPush(p) => {
             let t = get_mut(root, p);
             let K::Aot(a) = &mut t.k else { panic!() };
@@ -681,7 +729,7 @@ fn apply_model(root: &mut N, op: &Op) -> BTreeSet<String> {
     }
     // an edit inside an inline table or array rewrites the line(s) of the enclosing value: those markers may change
     let p: &Path = match op {
-        Op::Insert(p, ..) | Op::EntryOrInsert(p, ..) | Op::IndexAssign(p, ..) | Op::Remove(p, ..) | Op::SortValues(p) | Op::Fmt(p) | Op::ArrPush(p, ..) | Op::ArrInsert(p, ..) | Op::ArrReplace(p, ..) | Op::ArrRemove(p, ..) | Op::ArrRetainEven(p) | Op::ArrRetainNone(p) | Op::ArrClear(p) | Op::AotPush(p) | Op::AotExtend3(p) | Op::AotRemove(p, ..) | Op::AotRetainEven(p) | Op::AotClear(p) | Op::TabRetainEven(p) | Op::TabClear(p) | Op::IntoInline(p) | Op::IntoTable(p) | Op::MakeValue(p) | Op::IntoAot(p) => p,
+        Op::Insert(p, ..) | Op::EntryOrInsert(p, ..) | Op::IndexAssign(p, ..) | Op::Remove(p, ..) | Op::SortValues(p) | Op::Fmt(p) | Op::ArrPush(p, ..) | Op::ArrInsert(p, ..) | Op::ArrReplace(p, ..) | Op::ArrRemove(p, ..) | Op::ArrRetainEven(p) | Op::ArrRetainNone(p) | Op::ArrClear(p) | Op::ArrPushMoved(p, ..) | Op::ArrInsertMoved(p, ..) | Op::AotPush(p) | Op::AotExtend3(p) | Op::AotRemove(p, ..) | Op::AotRetainEven(p) | Op::AotClear(p) | Op::TabRetainEven(p) | Op::TabClear(p) | Op::IntoInline(p) | Op::IntoTable(p) | Op::MakeValue(p) | Op::IntoAot(p) => p,
     };
     let mut cur: &N = before;
     let mut chain: Vec<&N> = vec![cur];
@@ -763,6 +811,14 @@ fn apply_real(doc: &mut DocumentMut, op: &Op) {
         }
         Op::ArrRetainNone(p) => nav(doc, p).as_array_mut().expect("array").retain(|_| false),
         Op::ArrClear(p) => nav(doc, p).as_array_mut().expect("array").clear(),
+        Op::ArrPushMoved(p, k) | Op::ArrInsertMoved(p, k) => {
+            let moved = nav(doc, &p[..p.len() - 1]).as_table_like_mut().expect("table-like").remove(k).expect("moved entry").into_value().expect("a value");
+            let a = nav(doc, p).as_array_mut().expect("array");
+            match op {
+                Op::ArrInsertMoved(..) => a.insert(0, moved),
+                _ => a.push(moved),
+            }
+        }
         Op::AotPush(p) => {
             let mut t = Table::new();
             t.insert("z", toml_edit::value(1));
@@ -820,7 +876,7 @@ fn apply_real(doc: &mut DocumentMut, op: &Op) {
     }
 }
 
-pub const START_DOCS: [&str; 10] = [
+pub const START_DOCS: [&str; 11] = [
     "tc = [ 1, 2, ] # @tc\nml = [\n  1 # @ml0\n  , 2 # @ml1\n  ,\n] # @ml\ne = [] # @e\n",
     "opt.level.size = 1 # @opt.level.size\nopt.level.debug = 2 # @opt.level.debug\nopt.a = 3 # @opt.a\nb = 0 # @b\n[t] # @t\nz.y.x = 1 # @t.z.y.x\nz.y.a = 2 # @t.z.y.a\nz.b = 3 # @t.z.b\n",
     "# ^a\na = 1 # @a\nb = \"x\"   # @b\n# ^c\nc = [ 1, 2 ] # @c\nd = { x = 1, y = 2 } # @d\n",
@@ -832,6 +888,8 @@ pub const START_DOCS: [&str; 10] = [
     "[a.b] # @a.b\nk = 1 # @a.b.k\n[a] # @a\nj = 2 # @a.j\n",
     "\"k 1\" = 0x10 # @k 1\n'k2' = 1_000 # @k2\nk3 = [ { i = 1 }, { i = 2 } ] # @k3\n",
     "v = 1 # @v\n[t] # @t\ninl = { a = [ 1, 2 ], b = { c = 3 } } # @t.inl\n# trailing comment\n",
+    // a table that owns a nested array of tables and a sub-table (conversions have to take them along)
+    "[t] # @t\nx = 1 # @t.x\n[[t.v]] # @t.v0\ni = 1 # @t.v0.i\n[[t.v]] # @t.v1\n[t.u] # @t.u\nw = 2 # @t.u.w\n",
 ];
 
 /// a wide document: 24 headers whose source order differs from the tree-walk order (ordering of the printed tables
